@@ -162,6 +162,7 @@ func checkNewRR(c newRRCase) error {
 	select {
 	case r = <-done:
 	case <-time.After(watchdog):
+		hangSeen = true
 		buf := make([]byte, 1<<20)
 		buf = buf[:runtime.Stack(buf, true)]
 		return fmt.Errorf("NewRR did not finish within %v:\n%s", watchdog, buf)
